@@ -411,7 +411,11 @@ func (c *channel) processCommand(ctx context.Context, sender RequestCommandSende
 
 	defer func() {
 		c.processingCmdsMu.Lock()
-		delete(c.processingCmds, reqCmd.ID)
+		// The id may already be in use by a newer request, if the
+		// response of this one was received: remove only the own entry.
+		if ch, ok := c.processingCmds[reqCmd.ID]; ok && ch == respChan {
+			delete(c.processingCmds, reqCmd.ID)
+		}
 		c.processingCmdsMu.Unlock()
 	}()
 
@@ -433,17 +437,18 @@ func (c *channel) trySubmitCommandResult(respCmd *ResponseCommand) bool {
 		return false
 	}
 
-	c.processingCmdsMu.RLock()
+	// The lookup and the removal should be atomic, otherwise the entry of a newer
+	// request that reuses the id could be removed instead of the one that was found.
+	c.processingCmdsMu.Lock()
 	respChan, ok := c.processingCmds[respCmd.ID]
-	c.processingCmdsMu.RUnlock()
+	if ok {
+		delete(c.processingCmds, respCmd.ID)
+	}
+	c.processingCmdsMu.Unlock()
 
 	if !ok {
 		return false
 	}
-
-	c.processingCmdsMu.Lock()
-	delete(c.processingCmds, respCmd.ID)
-	c.processingCmdsMu.Unlock()
 
 	respChan <- respCmd
 	return true
